@@ -190,7 +190,9 @@ private:
         u16 z = 0;
 
         u32 current_src = 0, current_dst = 0;
-        u16 counter0 = 0, counter1 = 0, counter2 = 0;
+        // counter0 advances by 2 in dword mode: it must be wider than size0, or size0 = 0xFFFF is never reached
+        u32 counter0 = 0;
+        u16 counter1 = 0, counter2 = 0;
         u16 running = 0;
         u16 ahbm_channel = 0;
 
